@@ -491,6 +491,12 @@ async def c13_part(ctx) -> None:
                     if bad:
                         ctx.violation("ble-rejected-write-notified", f"{writes} statuses {vec}: listeners saw {seen!r}", replay)
                         continue
+                    # ... and everything the accessory accepted BEFORE the failing item was really written: readable ones are notified
+                    lost = [iid for k, ((_, iid, v), s) in enumerate(zip(writes, vec))
+                            if k < first_reject and not s and "pr" in acc.chars[iid][3] and seen.get((1, iid)) != {"value": v}]
+                    if lost:
+                        ctx.violation("ble-accepted-write-before-failure-not-notified", f"{writes} statuses {vec}: accessory accepted {lost} before rejecting a later item; listeners saw {seen!r}", replay)
+                        continue
                     ctx.count("ble_writes_judged")
                     continue
                 bad = None
